@@ -130,6 +130,41 @@ CLAIMS["C18"] = dict(
     technique="static analysis: type rule on the AST + abstract interpretation over sign/ordering cells + interval analysis",
     design="§3 E3, §4 C18", engine="E3")
 
+CLAIMS["C03"] = dict(
+    category="other",
+    text="Static decision of the structural part for all inputs: every closed path is built by CleanCollinear -> BuildPath with reverse_solution_ "
+         "(must-precede dataflow over all 7 builder call sites); CleanCollinear's removal condition table; BuildPath's degenerate-ring guard table and "
+         "duplicate-skipping copy loop; option members written only by their setters; OutRec::path built only in CheckBounds; D builders equal 64 builders.",
+    note="Bounding box, zero area, spikes, crossings, orientation-vs-nesting, collinearity of the result and idempotence under Union are NOT decided.",
+    technique="static analysis: must-precede dataflow + interpreted condition tables + sibling identity",
+    design="§3 E10/E3/E6, §4 C03", engine="E10")
+CLAIMS["C04"] = dict(
+    category="other",
+    text="Static decision that the set of rings cannot depend on the output mode: paths and tree builders send closed and open contours through "
+         "the same calls with the same arguments, and every branch on using_polytree_ writes only ownership fields (owner, splits, recursive_split, "
+         "polypath, OutPt::outrec), callees included (effect confinement; one reasoned exception).",
+    note="That the owners are right (containment, depth alternation, area equality) is NOT decided.",
+    technique="static analysis: effect confinement of option-controlled regions + pipeline identity",
+    design="§3 E10, §4 C04", engine="E10")
+CLAIMS["C10"] = dict(
+    category="other",
+    text="Static decision of four necessary clauses for all inputs: non-emptiness guards on every first/last-element access to input containers, "
+         "interprocedurally from the public entries (found and, since the repair, proves the absence of the empty-path crash in ClipperOffset); "
+         "operator new unreachable from every destructor / noexcept function, no catch handler, no nothrow-new (so bad_alloc reaches the caller); no "
+         "product in signed 64-bit arithmetic; sort comparators are strict weak orders.",
+    note="Termination, bounds of computed indices, lifetime of OutPt/Active nodes, overflow of sums, destructor safety after a mid-operation throw "
+         "are NOT decided.",
+    technique="static analysis: size-fact dataflow with preconditions + IR call-graph reachability + type lint + comparator axioms",
+    design="§3 E9, §4 C10", engine="E9")
+CLAIMS["C20"] = dict(
+    category="other",
+    text="Static decision of necessary clauses: TrimCollinear, SimplifyPath, RamerDouglasPeucker and StripNearEqual append only elements of the "
+         "input (never a computed vertex), inside loops through forward-only cursors; keep/remove flags are monotone; StripDuplicates only erases. "
+         "The one flag-clearing site (RDP) is a genuine defect recorded as a known finding (D11).",
+    note="Epsilon guarantees, area preservation, idempotence and the exact corner set are NOT decided.",
+    technique="static analysis: AST rules on result construction and flag assignments",
+    design="§4 C20", engine="E11")
+
 NOT_APPLICABLE = {
     "C02": "exactness on degenerate rectilinear input is a runtime interplay of horizontal joins; no structural clause is a necessary condition (DESIGN §4)",
     "C06": "every clause is a distance/region statement over all polygons and deltas; nothing is visible in the shape of the code (DESIGN §4)",
@@ -182,6 +217,12 @@ def main():
              "kind_free_text": "global state, shared-data immutability, thread-safe externals, determinism lint"},
             {"name": "E2", "path": "/verif/vlib/engines/e2_state.py", "serves_properties": ["C12", "C07"],
              "kind_free_text": "member-state hygiene: def-before-use, clean-at-exit, Clear completeness, loop-carried state (AST effects + vlib/flow.py)"},
+            {"name": "E9", "path": "/verif/vlib/engines/e9_safety.py", "serves_properties": ["C10", "C13", "C18"],
+             "kind_free_text": "non-emptiness guards, allocation under noexcept, int64 products"},
+            {"name": "E10", "path": "/verif/vlib/engines/e10_pipeline.py", "serves_properties": ["C03", "C04"],
+             "kind_free_text": "must-precede, option plumbing, pipeline identity, effect confinement"},
+            {"name": "E11", "path": "/verif/vlib/engines/e11_paths.py", "serves_properties": ["C20"],
+             "kind_free_text": "subsequence-by-construction and monotone flags for the path utilities"},
             {"name": "E6", "path": "/verif/vlib/engines/e6_siblings.py", "serves_properties": ["C15", "C16", "C05"],
              "kind_free_text": "sibling identity: USINGZ vs plain per function, 64 vs D builders"},
             {"name": "E7", "path": "/verif/vlib/engines/e7_zaccount.py", "serves_properties": ["C15"],
